@@ -295,6 +295,16 @@ int main(int argc, char** argv) {
     f5.chunk = 16;
     f5.rule = "every value with <= 2 children per container and nesting depth <= 2 (leaves 1, {}, a string holding ] \" {; keys a,b in both orders and duplicated) x all paths of depth <= 3";
     fams.push_back(f5);
+    // OG: whitespace in EVERY gap between tokens (also right after an opening and right before a closing bracket,
+    // and inside empty containers) of every shape-bounded text
+    static const unsigned OG_MAXGAPS = 40, OG_NR = 6;
+    vr::Family f7;
+    f7.name = "OG_every_gap";
+    f7.count = (uint64_t)owtexts->size() * (OG_MAXGAPS + 1) * OG_NR;
+    f7.group = "OG";
+    f7.chunk = 64;
+    f7.rule = "every shape-bounded text (as OW) with a run of r in {1,2,3,5,63,64} whitespace bytes (space, LF, TAB, CR cycling) in one gap g between two tokens - every gap, including the inside of empty containers, after opening and before closing brackets, and the two ends - or in all gaps at once; x all paths of depth <= 2 (thorough production build: <= 3)";
+    if (!(HAVE_ASAN && quick)) fams.push_back(f7);  // results, not memory: the quick ASan pass leaves it to the two production builds
     // OL: a long container that must be SKIPPED, holding one special item at every offset: the lookups of the
     // member / element that follows it must still succeed (string-mask carries across 64-byte blocks)
     vr::Family f6;
@@ -333,6 +343,63 @@ int main(int argc, char** argv) {
         static const std::vector<ref::Step> nopre;
         static const JsonPointer nojp;
         c10_text(text, r.v, paths, jps, nopre, nojp, ctx);
+        return;
+      }
+      if (f.name[1] == 'G') {
+        static const unsigned rs[OG_NR] = {1, 2, 3, 5, 63, 64};
+        unsigned r = rs[idx % OG_NR];
+        if (HAVE_ASAN && r != 1 && r != 64) {
+          ctx.skip();
+          return;
+        }
+        idx /= OG_NR;
+        unsigned g = (unsigned)(idx % (OG_MAXGAPS + 1));  // OG_MAXGAPS: all gaps
+        const std::string& t = (*owtexts)[idx / (OG_MAXGAPS + 1)];
+        // token boundaries of t (strings are atomic)
+        std::vector<size_t> cut = {0};
+        for (size_t i = 0; i < t.size();) {
+          if (t[i] == '"') {
+            size_t j = i + 1;
+            while (t[j] != '"') j += t[j] == '\\' ? 2 : 1;
+            i = j + 1;
+          } else if (strchr("[]{},:", t[i]))
+            i++;
+          else
+            while (i < t.size() && !strchr("[]{},:\"", t[i])) i++;
+          cut.push_back(i);
+        }
+        // gaps: positions cut[0..m] (m+1 gaps incl. both ends)
+        size_t ngaps = cut.size();
+        if (ngaps > OG_MAXGAPS) {
+          ctx.violation("generator_invalid", "generator_invalid", t, "harness error: more than %u gaps", OG_MAXGAPS);
+          return;
+        }
+        if (g < OG_MAXGAPS && g >= ngaps) {
+          ctx.skip();
+          return;
+        }
+        auto ws = [&](unsigned salt) {
+          std::string w;
+          for (unsigned i = 0; i < r; i++) w.push_back(" \n\t\r"[(i + salt) % 4]);
+          return w;
+        };
+        std::string s2;
+        for (size_t k = 0; k < cut.size(); k++) {
+          if (g == OG_MAXGAPS || g == k) s2 += ws((unsigned)k);
+          if (k + 1 < cut.size()) s2 += t.substr(cut[k], cut[k + 1] - cut[k]);
+        }
+        ref::Result r2 = ref::parse(s2);
+        if (!r2.ok) {
+          ctx.violation("generator_invalid", "generator_invalid", s2, "harness error: generated text is not valid");
+          return;
+        }
+        if (ctx.want_sample) ctx.sample(s2);
+        static const std::vector<ref::Step> nopre;
+        static const JsonPointer nojp;
+        if (quick || HAVE_ASAN)
+          c10_text(s2, r2.v, paths, jps, nopre, nojp, ctx);
+        else
+          c10_text(s2, r2.v, paths3, jps3, nopre, nojp, ctx);
         return;
       }
       if (f.name[1] == 'W') {
@@ -492,6 +559,42 @@ int main(int argc, char** argv) {
           out = t + std::string(k, ' ');
         else
           out = "[\"" + std::string(k, 'y') + "\"," + t;  // truncated wrapper: no closing bracket
+        return true;
+      };
+      tf.push_back(f);
+    }
+    // two whitespace runs: the scanner caches the whitespace bitmap of the 64-byte block in which a run of
+    // >= 3 whitespace bytes was met and consults it at later positions of that block; every run length x every
+    // position of the second run relative to the first, the text cut at every byte of the second run
+    {
+      fam::TextFamily f;
+      f.meta.name = "LS_two_whitespace_runs";
+      const unsigned R1 = HAVE_ASAN ? 9 : 71, R2 = 136;
+      f.meta.count = 4ull * R1 * R2 * (R2 + 1);
+      f.meta.group = "LS";
+      f.meta.chunk = 1024;
+      f.meta.rule = "4 shapes ({\"a\" W1 : W2 1} ; [ W1 1, W2 2] ; W1 {\"a\":[ W2 1]} ; {\"a\": W1 {\"b\": W2 2}}) with W1 of r1 in 0..70 and W2 of r2 in 0..135 whitespace bytes, complete and cut after every byte of W2 (the input ends inside a whitespace run at every distance from the block ends)";
+      f.gen = [R1, R2](uint64_t idx, std::string& out) {
+        static const unsigned r1s[9] = {0, 1, 2, 3, 4, 31, 62, 63, 64};
+        unsigned j = (unsigned)(idx % (R2 + 1));
+        idx /= (R2 + 1);
+        unsigned r2 = (unsigned)(idx % R2);
+        idx /= R2;
+        unsigned r1 = (unsigned)(idx % R1);
+        if (R1 == 9) r1 = r1s[r1];
+        unsigned shape = (unsigned)(idx / R1);
+        if (j > r2 + 1) return false;
+        static const char* head[4] = {"{\"a\"", "[", "", "{\"a\":"};
+        static const char* mid[4] = {":", "1,", "{\"a\":[", "{\"b\":"};
+        static const char* tail[4] = {"1}", "2]", "1]}", "2}}"};
+        out = head[shape];
+        for (unsigned i = 0; i < r1; i++) out.push_back(" \n\t\r"[(i + r2) % 4 == 3 ? 0 : (i % 2 ? 0 : (i + r2) % 3)]);
+        out += mid[shape];
+        if (j == r2 + 1) {
+          out.append(r2, ' ');
+          out += tail[shape];
+        } else
+          out.append(j, ' ');
         return true;
       };
       tf.push_back(f);
